@@ -66,6 +66,16 @@ CHECKS = {
              "delivered before completion. Windows the sentence leaves open are accepted narrowly and counted as probes.",
         note="Trusts: SimLoop timing (zero scheduling noise); slow-callback family is checked for order/values/prefix only.",
         technique=TECH + "; bounded-liveness and exactly-once oracles in virtual time"),
+    "C16": dict(
+        level="fault_enumeration", ref="DESIGN.md section 5 C16",
+        text="Systematic product {11 child behaviours: well-behaved, exits early / after k lines, ignores SIGTERM, never reads, floods, closes "
+             "stdout / stdin, slow start, unstartable, slow to die} x {5 exit paths: normal, exception, outer cancel scope, timeout around the "
+             "context, task.cancel()} x {4 moments incl. inside __aexit__} x entry point, executed against the real StdioClient / stdio_client / "
+             "StdioTransport on a FakeProcess, plus seeded scenarios with random latencies, instants and a second cancellation. Oracle: exit "
+             "within 2 s + modelled signal latencies of virtual time, child dead and reaped at quiescence, no task left, no fabricated result, "
+             "unstartable command raises on entry.",
+        note="Trusts: the FakeProcess model of asyncio's subprocess transport (handle released iff child dead/closed; SIGKILL always kills); real /proc and fd tables are not observed.",
+        technique=TECH + "; systematic fault enumeration (child behaviour x exit path x moment) + seeded crash/cancel points"),
     "C18": dict(
         level="exploration", ref="DESIGN.md section 5 C18",
         text="Seeded search over 2..4 concurrent callers x answer permutations x answer instants x unrelated traffic on one stream pair; "
